@@ -11,7 +11,7 @@ use serde_json::{json, Value};
 
 pub const LEVEL: &str = "exploration";
 pub const EXHAUSTIVE: bool = false;
-pub const RULE: &str = "generated case = (phonetic options, learned-selection store built through the API before the case: 0..3 real non-preselected commits on the word / a prefix / the suffixed word, optional user auto-correct file, target text T = wrapper + base [+ suffix key] + wrapper or an arbitrary string, final selection byte, edit script that reaches T[..n-1] through junk-then-backspace bursts and delete-and-retype steps, warm-up of 0..5 words typed before (proper prefixes, extensions, case variants, other suffixes of T's word, unrelated words; each finished or committed at the preselected index), interleaving plan for a second context in the same thread). Oracle (differential): the complete rendering (variant, auxiliary text, ordered candidates, preselected index, every pre-edit text) returned by the final key in the warm/edited/interleaved context equals the rendering in a brand-new context that types T directly with the same final selection byte; store file unchanged by the case. Non-trivial: the word part has >= 3 characters and the script contains a backspace or a warm-up word related to T; distinct by (options, store, T, script, warm-up). In the long-lived part a share of the cases first lets the user's auto-correct list gain an entry for the target's word and lose / change it again (update-engine while idle after each edit); the brand-new context is created over the files in force when the target is typed.";
+pub const RULE: &str = "generated case = (phonetic options, learned-selection store built through the API before the case: 0..3 real non-preselected commits on the word / a prefix / the suffixed word, optional user auto-correct file, target text T = wrapper + base [+ suffix key] + wrapper or an arbitrary string, final selection byte, edit script that reaches T[..n-1] through junk-then-backspace bursts and delete-and-retype steps, warm-up of 0..5 words typed before (proper prefixes, extensions, case variants, other suffixes of T's word, unrelated words; each finished or committed at the preselected index), interleaving plan for a second context in the same thread). Oracle (differential): the complete rendering (variant, auxiliary text, ordered candidates, preselected index, every pre-edit text) returned by the final key in the warm/edited/interleaved context equals the rendering in a brand-new context that types T directly with the same final selection byte; store file unchanged by the case. Non-trivial: the word part has >= 3 characters and the script contains a backspace or a warm-up word related to T; distinct by (options, store, T, script, warm-up). In the long-lived part a share of the cases first lets the user's auto-correct list gain an entry for the target's word and lose / change it again (update-engine while idle after each edit); the brand-new context is created over the files in force when the target is typed. Plus a data-file part: the bundled data are copied to a scratch directory, a context is created over it and used, the three data files are rewritten in place (the probe words' entries taken out) and copied byte for byte to a second directory; a brand-new context over the first directory and one over the second must agree on every rendering (8 variants).";
 pub const ASSUMPTIONS: &[&str] = &[
     "configuration, data files, user files and the final selection byte are identical in both runs",
     "contexts are not Send: same-thread interleaving is the whole schedule space",
@@ -624,7 +624,95 @@ fn text_reached_by_backspace(run: &Run) {
     );
 }
 
+/// "A function of ... the data files": the bundled data are copied to a scratch directory, a context is created over
+/// it and used, then the three data files are rewritten IN PLACE (entries of the probe words taken out) and the directory
+/// is copied byte for byte to a second one.  A brand-new context over the first directory and a brand-new context over
+/// the second have the same configuration, the same data bytes and the same (empty) user files: every rendering must
+/// be equal, and what the earlier context of this process read from the old files must not show.
+fn data_replaced_case(variant: u8) -> Result<usize, Failure> {
+    let case = json!({"data_replaced": {"variant": variant}});
+    let pf = |p: crate::driver::PanicInfo| Failure::new(&panic_kind(&p), p.to_string(), case.clone());
+    let holder = Sandbox::new_bare();
+    let (d1, d2) = (holder.base().join("data-one"), holder.base().join("data-two"));
+    std::fs::create_dir_all(&d1).expect("scratch data dir");
+    std::fs::create_dir_all(&d2).expect("scratch data dir");
+    let files = ["dictionary.json", "suffix.json", "autocorrect.json"];
+    for f in files {
+        std::fs::copy(format!("{}/{f}", crate::driver::data_dir()), d1.join(f)).expect("copy data file");
+    }
+    let opts = Opts::parse(if variant % 2 == 0 { "s" } else { "se" });
+    let probes = ["amar", "ami", "sesh", "sesher", "boi", "boigulo", "kolkata", "academy", "dr", "kotha", "k", "tara", "manush", "manusher"];
+    let (sb_a, sb_b, sb_c) = (Sandbox::new(), Sandbox::new(), Sandbox::new());
+    let a = Ctx::new_with_data(opts, sb_a.base(), &d1).map_err(pf)?;
+    let mut seen: Vec<String> = vec![];
+    for w in probes {
+        if let Some(r) = a.type_frontend(w).map_err(pf)? {
+            seen.extend(r.cands.iter().cloned());
+        }
+        a.finish().map_err(pf)?;
+    }
+    // rewrite in place: the dictionary loses every word the probes were offered, the other two tables lose the keys
+    // the probes use
+    let mut dict: std::collections::BTreeMap<String, Vec<String>> = serde_json::from_slice(&std::fs::read(d1.join("dictionary.json")).expect("read")).expect("dictionary.json");
+    let gone: std::collections::HashSet<&String> = seen.iter().collect();
+    let mut removed = 0usize;
+    for v in dict.values_mut() {
+        let n = v.len();
+        v.retain(|w| !gone.contains(w));
+        removed += n - v.len();
+    }
+    std::fs::write(d1.join("dictionary.json"), serde_json::to_vec(&dict).unwrap()).expect("rewrite");
+    if variant / 2 % 2 == 1 {
+        for (f, keys) in [("suffix.json", &["er", "gulo", "r"][..]), ("autocorrect.json", &["academy", "dr", "ami"][..])] {
+            let mut t: std::collections::BTreeMap<String, String> = serde_json::from_slice(&std::fs::read(d1.join(f)).expect("read")).expect("table");
+            for k in keys {
+                t.remove(*k);
+            }
+            std::fs::write(d1.join(f), serde_json::to_vec(&t).unwrap()).expect("rewrite");
+        }
+    }
+    for f in files {
+        std::fs::copy(d1.join(f), d2.join(f)).expect("copy data file");
+    }
+    // the old context may stay alive or go away first
+    let keep_alive = if variant / 4 % 2 == 0 { Some(a) } else { drop(a); None };
+    let b = Ctx::new_with_data(opts, sb_b.base(), &d1).map_err(pf)?;
+    let c = Ctx::new_with_data(opts, sb_c.base(), &d2).map_err(pf)?;
+    for w in probes {
+        let mut sel = 0u8;
+        for ch in w.chars() {
+            let (rb, rc) = (b.ch(ch, sel).map_err(pf)?, c.ch(ch, sel).map_err(pf)?);
+            if rb != rc {
+                return Err(Failure::new(
+                    "new-context-shows-data-read-earlier-in-the-process",
+                    format!("data files rewritten in place after another context had loaded them: typing {w:?}, at {ch:?} a brand-new context over that directory returns {} but a brand-new context over a byte-identical copy returns {}", rb.short(), rc.short()),
+                    case.clone(),
+                ));
+            }
+            sel = if rb.lonely { 0 } else { rb.sel.min(255) as u8 };
+        }
+        b.finish().map_err(pf)?;
+        c.finish().map_err(pf)?;
+    }
+    drop(keep_alive);
+    Ok(removed)
+}
+
+fn data_files_replaced_between_two_contexts(run: &Run) {
+    let items: Vec<u8> = (0..8).collect();
+    run.exhaustive("data-files-rewritten-in-place-between-two-contexts", &items, |_| (), |&v, st, _| {
+        let removed = data_replaced_case(v)?;
+        if removed > 0 {
+            st.label("data-files-rewritten-between-two-contexts");
+            st.nontrivial(v as u64, || json!({"data_replaced_variant": v, "dictionary_words_removed": removed}));
+        }
+        Ok(())
+    });
+    run.require_label("data-files-rewritten-between-two-contexts", 8);
+}
+
 pub fn run(run: &Run) {
+    data_files_replaced_between_two_contexts(run);
     text_reached_by_backspace(run);
     final_key_on_the_number_pad(run);
     run.sharded("warm-vs-fresh", 16, run.tier.pick(350, 9000), 400, strategy, |_| (), |c: &Case, st, _| run_case(c, st));
@@ -639,6 +727,9 @@ pub fn run(run: &Run) {
 }
 
 pub fn replay(_run: &Run, case: &Value) -> Result<(), Failure> {
+    if let Some(d) = case.get("data_replaced") {
+        return data_replaced_case(d["variant"].as_u64().unwrap_or(0) as u8).map(|_| ());
+    }
     if let Some(f) = case.get("final_key_on_number_pad") {
         let (word, mark) = (f["word"].as_str().unwrap_or("a"), f["mark"].as_str().and_then(|m| m.chars().next()).unwrap_or('.'));
         let sb = Sandbox::new();
